@@ -140,6 +140,42 @@ fn one_matrix(l: &mut Local, m: &Mat, rng: &mut Rng, nvec: usize, limits: &[usiz
                 }
             }
         }
+        // "every iteration limit": the largest representable limits, on inputs known to converge (a success at a
+        // finite limit was just observed, and a decoder carries no state, so these calls return after as many iterations)
+        if v % 4 == 0 {
+            let lmax = *limits.iter().max().unwrap_or(&0);
+            for (name, dec) in decs.iter_mut() {
+                let converges = matches!(guard(|| dec.decode(&llrs, lmax)), Ok(Ok(_)));
+                if !converges {
+                    continue;
+                }
+                for limit in [usize::MAX, usize::MAX - 1] {
+                    l.eval();
+                    match guard(|| dec.decode(&llrs, limit)) {
+                        Err(p) => {
+                            l.violation(
+                                format!("decode panicked with the largest iteration limit ({}): {}", if name.starts_with("HL") { "layered" } else { "flooding" }, panic_class(&p)),
+                                m.json().set("implementation", name.clone()).set("llrs", jfs(&llrs)).set("limit", limit).set("panic", p),
+                            );
+                            if let Ok(im) = name.parse::<DecoderImplementation>() {
+                                *dec = im.build_decoder(h.clone());
+                            }
+                        }
+                        Ok(res) => {
+                            if res.is_err() {
+                                l.violation(
+                                    format!("failure with an unlimited iteration count on an input that converges within {} iterations ({})", lmax, if name.starts_with("HL") { "layered" } else { "flooding" }),
+                                    m.json().set("implementation", name.clone()).set("llrs", jfs(&llrs)).set("limit", limit),
+                                );
+                            } else {
+                                judge(l, name, m, &llrs, limit, &res, cname);
+                                l.count("unlimited_iteration_limit_calls");
+                            }
+                        }
+                    }
+                }
+            }
+        }
         if v == 0 {
             l.sample(|| m.json().set("llr_class", cname).set("llrs", jfs(&llrs)).set("limits", limits.iter().map(|&x| x as u64).collect::<Vec<_>>()).set("implementations", decs.len()));
         }
@@ -147,7 +183,7 @@ fn one_matrix(l: &mut Local, m: &Mat, rng: &mut Rng, nvec: usize, limits: &[usiz
 }
 
 pub fn run(run: &mut Run) {
-    run.rule = "all 36 names from DecoderImplementation::value_variants() built through build_decoder x generated matrices (10 families, row weight >= 2, entries inserted in sorted or shuffled order) x 12 hostile LLR classes (|x| <= 1e30: subnormal, tiny, huge, +-0, mixed, 8-bit rounding boundaries, zero blocks, codeword +/- few flips, all equal) x limits from {0,1,2,3,5,10,50}; thorough adds noisy all-zero-codeword frames on CCSDS AR4JA r1/2 k=1024 and DVB-S2 short 1/2; oracle = own syndrome on the entry list and sign pattern (llr <= 0 -> 1); non-trivial = decode that ran >= 1 iteration (success after >= 1 or failure); distinct by (implementation, matrix, LLR vector, limit) digest".into();
+    run.rule = "all 36 names from DecoderImplementation::value_variants() built through build_decoder x generated matrices (10 families, row weight >= 2, entries inserted in sorted or shuffled order) x 12 hostile LLR classes (|x| <= 1e30: subnormal, tiny, huge, +-0, mixed, 8-bit rounding boundaries, zero blocks, codeword +/- few flips, all equal) x limits from {0,1,2,3,5,10,50} plus usize::MAX and usize::MAX-1 on inputs that converge; repeat-twice codes of 65540 and 131080 bits (index widths) with one unreliable position beyond 2^16 for all 36 names; thorough adds noisy all-zero-codeword frames on CCSDS AR4JA r1/2 k=1024 and DVB-S2 short 1/2; oracle = own syndrome on the entry list and sign pattern (llr <= 0 -> 1); non-trivial = decode that ran >= 1 iteration (success after >= 1 or failure); distinct by (implementation, matrix, LLR vector, limit) digest".into();
     run.assumptions = vec![
         "a wrong-length LLR slice is outside the domain (decode asserts on it)".into(),
         "harness profile enables overflow-checks and debug-assertions for the library".into(),
@@ -175,6 +211,54 @@ pub fn run(run: &mut Run) {
         let m = Mat::new(2, 3, vec![(0, 0), (0, 1), (1, 1), (1, 2)], "directed-2x3");
         one_matrix(l, &m, rng, 24, &[0, 1, 3], &impls3);
     });
+    // codes longer than 2^16 and 2^17 bits (index width): x_i = x_{i+n/2}, one unreliable position beyond the boundary
+    if !cfg!(miri) {
+        let impls5 = impls.clone();
+        run.sub("long-codes", impls.len() as u64, move |l, idx, rng| {
+            let im = impls5[idx as usize % impls5.len()];
+            let name = im.to_string();
+            let half = *rng.pick(&[32_770usize, 65_540]);
+            let n = 2 * half;
+            let e: Vec<(usize, usize)> = (0..half).flat_map(|i| [(i, i), (i, i + half)]).collect();
+            let m = Mat::new(half, n, e, if half == 32_770 { "repeat-twice-65540" } else { "repeat-twice-131080" });
+            let h = m.to_sparse();
+            let mut dec = match guard(|| im.build_decoder(h.clone())) {
+                Ok(d) => d,
+                Err(p) => {
+                    l.violation(format!("build_decoder panicked on a long code: {}", panic_class(&p)), J::obj().set("implementation", name).set("n", n));
+                    return;
+                }
+            };
+            for case in 0..3 {
+                // all bits reliably 0 except one position in the upper half that says 1 (weakly or strongly)
+                let pos = match case {
+                    0 => n - 1 - rng.below(4),
+                    1 => 65_536 + rng.below(4),
+                    _ => half + rng.below(half),
+                };
+                let mut llrs = vec![3.0f64; n];
+                llrs[pos] = *rng.pick(&[-0.5, -2.0, -8.0]);
+                for limit in [0usize, 5] {
+                    l.eval();
+                    match guard(|| dec.decode(&llrs, limit)) {
+                        Err(p) => {
+                            l.violation(format!("decode panicked on a long code: {}", panic_class(&p)), J::obj().set("implementation", name.clone()).set("n", n).set("panic", p));
+                            dec = im.build_decoder(h.clone());
+                        }
+                        Ok(res) => {
+                            let kind = judge_compact(l, &name, &m, &llrs, limit, &res);
+                            l.count(&format!("{}:long:{}", name, kind));
+                            if kind == "ok1" || kind == "fail" {
+                                let mut d = Dig::new();
+                                d.s(&name).u(n as u64).u(pos as u64).u(limit as u64).f(llrs[pos]);
+                                l.nt(d.get());
+                            }
+                        }
+                    }
+                }
+            }
+        });
+    }
     if tier == crate::ctx::Tier::Thorough && !cfg!(miri) {
         let impls4 = impls.clone();
         run.sub("real-codes", (impls.len() * 2) as u64, move |l, idx, rng| {
@@ -231,6 +315,7 @@ fn judge_compact(l: &mut Local, name: &str, m: &Mat, llrs: &[f64], limit: usize,
             .set("what", what)
             .set("iterations", out.iterations)
             .set("llrs_head", jfs(&llrs[..8]))
+            .set("positions_with_negative_llr", llrs.iter().enumerate().filter(|(_, x)| **x < 0.0).take(8).map(|(i, _)| i as u64).collect::<Vec<_>>())
     };
     match res {
         Ok(out) => {
